@@ -15,6 +15,8 @@ PROPS["C18"] = {
          "bounds": {"len": "[0,1100] symbolic", "offset": "full int64", "limit": "full int64"}},
         {"pkg": "pclog", "name": "VerifC18_Write", "quick": {}, "thorough": {},
          "bounds": {"size": "[0,3] symbolic", "pre-state": "0, 1, size, size+slack-1, size+slack lines held", "step": "one Write"}},
+        {"pkg": "pclog", "name": "VerifC18_TwoWriters", "quick": {"d": 2}, "thorough": {"d": 3}, "replay_repeat": 16,
+         "bounds": {"writers": "2 (stdout and stderr reader), 2 lines each", "follower": "subscribed before, slow inside its callback (scheduling point)", "schedules": "two preemptions (three thorough)"}},
         {"pkg": "pclog", "name": "VerifC18_Follow", "quick": {"d": 3}, "thorough": {"d": 4}, "replay_repeat": 16,
          "bounds": {"writes": 4, "subscribe": "after any number of them", "tail": "full int64", "unsubscribe": "after any number of writes or never", "concurrent writer": "yes (delay bound d)"}},
     ],
